@@ -1,5 +1,6 @@
 import RpmVerif.Lemmas.Vercmp
 import RpmVerif.Gen.VercmpVectors
+import RpmVerif.Lemmas.VercmpUtf8
 /-!
 # C13 — version comparison equals rpm's algorithm and is a total preorder
 
@@ -41,6 +42,13 @@ theorem cVercmp_eq_keyCmp (a b : Str) : cVercmp a b = keyCmp a b := by
 /-- **Main theorem**: the library's comparison equals rpm's `rpmvercmp` on every pair of strings. -/
 theorem rust_eq_c (a b : Str) : rustCmp a b = cVercmp a b := by
   rw [rustCmp_eq_keyCmp, cVercmp_eq_keyCmp]
+
+/-- **chars vs bytes**: the library compares `char`s, rpm compares bytes. On the UTF-8 encoding of the
+two strings rpm's algorithm gives exactly what the library computes on the code points (every byte
+of a non-ASCII character is a separator, like the character itself). -/
+theorem chars_vs_bytes (a b : Str) : rustCmp a b = cVercmp (encode utf8 a) (encode utf8 b) := by
+  rw [rustCmp_eq_keyCmp, cVercmp_eq_keyCmp]
+  simp only [keyCmp, key_encode utf8_transparent]
 
 /-! ### order laws for `compare_version_string` -/
 theorem rustCmp_refl (a : Str) : rustCmp a a = .eq := by rw [rustCmp_eq_keyCmp]; exact keyCmp_self a
@@ -137,6 +145,8 @@ example : rustCmp [49,46,48,126,114,99,49] [49,46,48] = .lt ∧ cVercmp [49,46,4
 example : (rustCmp [49,46,48] [49,46,48,94,97]).isLE ∧ (rustCmp [49,46,48,94,97] [49,46,49]).isLE := by decide +kernel
 -- "" epoch equals "0" epoch: premise of `evr_eq_cmp_eq`
 example : Evr.eq ⟨[], [49], [50]⟩ ⟨[48], [49], [50]⟩ = true := by decide
+-- the UTF-8 encoding of "1.Á" is 31 2e c3 81
+example : encode utf8 [49, 46, 193] = [49, 46, 0xC3, 0x81] := by decide
 -- "1.1.Á.1" = "1.1.1": a non-ASCII char is a separator
 example : rustCmp [49,46,49,46,193,46,49] [49,46,49,46,49] = .eq := by decide +kernel
 
